@@ -1,5 +1,6 @@
 # Human-written parts of MANIFEST.json, per property.
 ENGINES = [
+    dict(name="E3 store", path="harness/vds, harness/t_store", serves_properties=["C09", "C10", "C17"], kind_free_text="deterministic fault-injecting datastore (write counting, crash after k writes, snapshot/restore, permutable query order) + rapid state machines against an in-memory store model"),
     dict(name="E2 structured", path="harness/t_certs, harness/t_msgs, harness/t_codec", serves_properties=["C04", "C05", "C13", "C14"], kind_free_text="grammar-directed rapid generators (vgen) + field-level corruption operators, differential against reference models (vref)"),
     dict(name="E5 arith", path="harness/t_arith", serves_properties=["C08"], kind_free_text="exhaustive loops + rapid generators over big-integer power tables and real tallies"),
 ]
@@ -8,6 +9,24 @@ PENDING = "check under construction in this session; will be claimed once its ha
 NOT_APPLICABLE = {("C%02d" % i): PENDING for i in range(1, 21)}
 
 TEXT = {
+    "C09": dict(
+        engine="E3 store",
+        technique="stateful property-based testing (rapid): operation histories on the real store vs an in-memory reference model, all observables compared after every step; -race stress for readers/writers",
+        level_text="Generated operation histories (create/open variants, 13 kinds of put, range reads, subscribe/read, reopen) on a real certstore.Store over a deterministic datastore; after every step Latest, every Get, every GetPowerTable in [first-1, next+1] and sampled GetRange are compared with the model (table = initial table + all earlier deltas, computed independently), including real crossings of the 1440-instance checkpoint boundary. Writers are watched for blocking on idle subscribers. Concurrent readers/subscribers against a writer under -race.",
+        level_note="Trusted base: harness datastore (sorted map), reference delta application and table CID in harness/vref. Signatures are not checked by the store by design. The concurrent part does not control the scheduler.",
+    ),
+    "C10": dict(
+        engine="E3 store",
+        technique="fault enumeration: every datastore-write prefix of every store operation, generated histories (rapid), reopen with each open variant vs before/after model state",
+        level_text="For generated pre-states, each of CreateStore / OpenOrCreateStore / Put / DeleteAll is first run on a write-counting datastore, then re-run from the same pre-state once per crash point k in [0, n] (exhaustive per operation), with generated permutations of the wipe order. The surviving map is reopened with OpenStore and OpenOrCreateStore and must equal the model before or after the operation; an interrupted wipe must be completed by reopen; the operation must be repeatable.",
+        level_note="Crash = datastore refuses every write from the k-th on; single Put/Delete are assumed atomic; orphan certificates above the latest pointer are not observable state (Get is compared for i <= latest only).",
+    ),
+    "C17": dict(
+        engine="E3 store",
+        technique="property-based testing (rapid): export/import round trip vs model, block- and byte-level snapshot corruption vs a model importer",
+        level_text="Generated stores and export end points: the clean export must import into an empty datastore and open observationally identical to the exporter up to the end point, with digest = blake2b-256 CID of the bytes; each corrupted variant (19 operators: truncation at every boundary/inner offset, drop/dup/swap/append blocks, header and certificate edits, contradicting manifest, garbage tail) is decided by a model importer written from the statement; what the format does not commit to is counted as masked, not asserted. Failed imports must leave no latest pointer.",
+        level_note="Import does not verify signatures (outside the statement). Table corruption must be rejected only at checkpoints and at the end, where the format commits to a table.",
+    ),
     "C04": dict(
         engine="E2 structured",
         technique="property-based testing (rapid): grammar-built certificate chains x corruption operators, differential against an independent reference validator; algebraic delta laws",
